@@ -63,6 +63,17 @@ def run(rep):
     # 2. replay into the engine
     t0 = time.time()
     results = engine.run_cases(rep.pid, allc, driver=DRIVER)
+    # a wall-clock watchdog hit on a loaded machine is not an observation: run those cases once more, alone
+    def hung(r):
+        obs = r["obs"] if isinstance(r["obs"], list) else [r["obs"]]
+        return any(o["out"]["o"] == "hang" and "wall" in o["out"].get("msg", "") for o in obs)
+    again = [r["id"] for r in results if hung(r)]
+    if again:
+        byid0 = {c["id"]: c for c in allc}
+        redo = engine.run_cases(rep.pid, [byid0[i] for i in again], driver=DRIVER, procs=1, tag="eng_retry")
+        fixed = {r["id"]: r for r in redo}
+        results = [fixed.get(r["id"], r) for r in results]
+        rep.notes["watchdog_retries"] = len(again)
     rep.notes["engine_wall_s"] = round(time.time() - t0, 1)
     byid = {c["id"]: c for c in allc}
     crecs, trecs = [], []
@@ -181,9 +192,171 @@ def show_case(c):
 
 
 # ---- seeded random histories (spec-level JSON; judged by the total trace specification in C17.tla) ----------------
+from harness.wire import W_num, W_str, W_bool, W_undef, W_null
+
+
+def ref(i):
+    return {"k": "ref", "id": i}
+
+
+PRIMS = [W_num(1), W_num(2), W_num(9), W_num(0), W_num(10), W_str("a"), W_str("10"), W_str("b"), W_undef(), W_null(),
+         W_num(float("nan")), W_bool(True), W_bool(False)]
+IDX = [W_num(x) for x in (-7, -2, -1, 0, 1, 2, 3, 5, 7)] + [W_num(1.5), W_num(-0.5), W_num(float("nan")), W_num(float("inf")),
+                                                              W_num(float("-inf")), W_undef(), W_null(), W_str("1"), W_str("x"), W_bool(True)]
+SEPS = [[], [W_undef()], [W_str("-")], [W_str("")], [W_num(1)]]
+SYMS = ["T", "F", "throw", "push", "pop", "shorten"]
+ITER = ["forEach", "map", "filter", "find", "findIndex", "some", "every"]
+TRUTHY = [W_num(7), W_str("0"), W_bool(True)]
+FALSY = [W_num(0), W_str(""), W_undef(), W_num(float("nan")), W_null(), W_bool(False)]
+NOCB = {"kind": "na", "v": W_undef(), "tab": [], "dflt": {"act": "ret", "v": W_undef(), "x": W_undef(), "n": 0},
+        "this": W_undef(), "hasThis": False, "cmp": ""}
+
+
+def entry(m, sym, p):
+    cont = FALSY[(p - 1) % 6] if m in ("some", "find", "findIndex") else TRUTHY[(p - 1) % 3]
+    e = {"act": "ret", "v": cont, "x": W_undef(), "n": 0}
+    if sym == "T":
+        e["v"] = TRUTHY[(p - 1) % 3]
+    elif sym == "F":
+        e["v"] = FALSY[(p - 1) % 6]
+    elif sym == "throw":
+        e.update(act="throw", v=W_num(40 + p))
+    elif sym == "push":
+        e.update(act="push", x=W_num(70 + p))
+    elif sym == "pop":
+        e.update(act="pop")
+    elif sym == "shorten":
+        e.update(act="len", n=1)
+    return e
+
+
+def fncb(rng, m):
+    syms = [rng.choice(SYMS) for _ in range(rng.randint(0, 3))]
+    cb = dict(NOCB)
+    cb.update(kind="fn", tab=[entry(m, s, i + 1) for i, s in enumerate(syms)],
+              dflt={"act": "ret", "v": FALSY[0] if m in ("some", "find", "findIndex") else TRUTHY[0], "x": W_undef(), "n": 0})
+    if m in ITER and rng.random() < 0.2:
+        cb.update(hasThis=True, this=rng.choice([W_num(5), ref(4), W_undef()]))
+    return cb
+
+
+def item(rng, r):
+    """a value that may be stored into array r: primitives, or a higher-numbered array (never a cycle)"""
+    if rng.random() < 0.2 and r < 4:
+        return ref(rng.randint(r + 1, 4))
+    return rng.choice(PRIMS)
+
+
 def gen_histories(rng, n):
-    return []
+    out = []
+    for _ in range(n):
+        store = []
+        for r in (1, 2, 3):
+            store.append([item(rng, r) for _ in range(rng.randint(0, 5))])
+        store.append([W_num(1)])
+        evs = []
+        for _ in range(rng.randint(3, 20)):
+            r = rng.randint(1, 3) if rng.random() < 0.95 else 4
+            m = rng.choice(["push", "push", "pop", "shift", "unshift", "splice", "splice", "splice", "reverse", "sort", ".length=", "[]=", "[]=",
+                            "concat", "slice", "join", "toString", "indexOf", "lastIndexOf", "includes", "[]", ".length",
+                            "forEach", "map", "filter", "find", "findIndex", "some", "every", "reduce", "reduceRight"])
+            a, cb = [], NOCB
+            if m in ("push", "unshift"):
+                a = [item(rng, r) for _ in range(rng.randint(0, 2))]
+            elif m == "concat":
+                a = [rng.choice(PRIMS + [ref(1), ref(2), ref(3), ref(4)]) for _ in range(rng.randint(0, 2))]
+            elif m == "splice":
+                a = [rng.choice(IDX) for _ in range(rng.randint(0, 2))]
+                if len(a) == 2:
+                    a += [item(rng, r) for _ in range(rng.randint(0, 2))]
+            elif m == "slice":
+                a = [rng.choice(IDX) for _ in range(rng.randint(0, 2))]
+            elif m in ("indexOf", "lastIndexOf", "includes"):
+                a = [rng.choice(PRIMS + [ref(4), ref(2)])] + ([rng.choice(IDX)] if rng.random() < 0.4 else [])
+            elif m == "join":
+                a = rng.choice(SEPS)
+            elif m == ".length=":
+                a = [rng.choice([W_num(x) for x in (0, 1, 2, 3, 4, 6, 8, -1, 1.5)] + [W_str("2"), W_undef(), W_null(), W_num(float("nan"))])]
+            elif m == "[]":
+                a = [W_num(rng.choice([0, 1, 2, 3, 5, 8, -1, 1.5]))]
+            elif m == "[]=":
+                a = [W_num(rng.randint(0, 7)), item(rng, r)]
+            elif m == "sort":
+                k = rng.choice(["none", "none", "undef", "one", "neg", "alt", "nan", "val"])
+                cb = dict(NOCB)
+                if k == "none":
+                    cb.update(kind="none")
+                elif k == "val":
+                    cb.update(kind="val", v=rng.choice([W_undef(), W_null(), W_num(1)]))
+                else:
+                    cb.update(kind="fn", cmp=k)
+            elif m in ITER:
+                cb = fncb(rng, m)
+            elif m in ("reduce", "reduceRight"):
+                cb = fncb(rng, m)
+                a = rng.choice([[], [W_num(100)], [W_undef()]])
+            evs.append({"m": m, "r": r, "a": a, "cb": cb})
+        out.append({"ty": "hist", "store": store, "evs": evs})
+    return out
+
+
+TAKINDS = ["Int8Array", "Uint8Array", "Uint8ClampedArray", "Int16Array", "Uint16Array", "Int32Array", "Uint32Array", "Float32Array", "Float64Array"]
+TASIZE = {"Int8Array": 1, "Uint8Array": 1, "Uint8ClampedArray": 1, "Int16Array": 2, "Uint16Array": 2, "Int32Array": 4, "Uint32Array": 4,
+          "Float32Array": 4, "Float64Array": 8}
+TAVALS = [W_num(x) for x in (0, 1, -1, 127, 128, 255, 256, 0.5, 1.5, 2.5, -0.5, 2.0 ** 31, 2.0 ** 32 + 1, -129, 65535, 65536, 1e21, 254.5,
+                             16777217.0, 3.5, -2.0 ** 31, 1e39, float("nan"), float("inf"), float("-inf"), -0.0)] + [W_str("7"), W_undef(), W_null(), W_bool(True)]
+NOSRC = {"t": "arr", "vals": [], "id": 0}
+
+
+def taev(op, kind="", vi=0, i=0, x=None, a=None, src=None):
+    return {"op": op, "kind": kind, "vi": vi, "i": i, "x": x or W_undef(), "a": a or [], "src": src or NOSRC}
 
 
 def gen_ta_histories(rng, n):
-    return []
+    out = []
+    for _ in range(n):
+        sizes = [rng.choice([8, 16, 24]), rng.choice([4, 8, 16])]
+        evs = [taev("newbuf", i=sizes[0]), taev("newbuf", i=sizes[1])]
+        nviews, nsub = 0, 0
+        for _ in range(rng.randint(3, 18)):
+            op = rng.choice(["view", "view", "newlen", "newarr", "write", "write", "write", "write", "set", "set", "subarray", "len"])
+            if nviews == 0 and op not in ("view", "newlen", "newarr"):
+                op = "view"
+            kd = rng.choice(TAKINDS)
+            sz = TASIZE[kd]
+            vi = rng.randint(1, max(1, nviews))
+            if op == "view":
+                b = rng.randint(1, 2)
+                if rng.random() < 0.9:                                   # a valid view
+                    off = sz * rng.randint(0, sizes[b - 1] // sz)
+                    room = (sizes[b - 1] - off) // sz
+                    a = [W_num(off)] + ([W_num(rng.randint(0, room))] if rng.random() < 0.7 else [])
+                    if off == 0 and len(a) == 1 and rng.random() < 0.5:
+                        a = []
+                else:
+                    a = [W_num(rng.choice([1, 3, 5, 64, -1])), W_num(rng.randint(0, 3))]
+                evs.append(taev("view", kind=kd, vi=b, a=a))
+                nviews += 1
+            elif op == "newlen":
+                evs.append(taev("newlen", kind=kd, a=[rng.choice([W_num(x) for x in (0, 1, 2, 3, 4)] + [W_num(2.5), W_str("2"), W_null()])]))
+                nviews += 1
+            elif op == "newarr":
+                evs.append(taev("newarr", kind=kd, src={"t": "arr", "vals": [rng.choice(TAVALS) for _ in range(rng.randint(0, 4))], "id": 0}))
+                nviews += 1
+            elif op == "write":
+                evs.append(taev("write", vi=vi, i=rng.randint(0, 5), x=rng.choice(TAVALS)))
+            elif op == "set":
+                src = ({"t": "view", "vals": [], "id": rng.randint(1, max(1, nviews))} if rng.random() < 0.5
+                       else {"t": "arr", "vals": [rng.choice(TAVALS) for _ in range(rng.randint(0, 3))], "id": 0})
+                a = rng.choice([[], [], [W_num(0)], [W_num(1)], [W_num(2)], [W_num(5)], [W_num(-1)], [W_undef()], [W_num(1.5)]])
+                evs.append(taev("set", vi=vi, src=src, a=a))
+            elif op == "subarray" and nsub < 3:
+                a = [rng.choice([W_num(x) for x in (-2, -1, 0, 1, 2, 3, 9)] + [W_undef(), W_num(float("nan")), W_num(float("inf")), W_num(1.5)])
+                     for _ in range(rng.randint(0, 2))]
+                evs.append(taev("subarray", vi=vi, a=a))
+                nviews += 1
+                nsub += 1
+            else:
+                evs.append(taev("len", vi=vi))
+        out.append({"ty": "ta", "evs": evs})
+    return out
